@@ -898,7 +898,8 @@ func computeBidiOrdering(dir di.Direction, finalLine Line) {
 			basePosition = len(finalLine) - 1 - idx
 		}
 		finalLine[idx].VisualIndex = int32(basePosition)
-		if run.Direction == dir {
+		// only the progression matters: runs of a vertical paragraph also carry orientation bits
+		if run.Direction.Progression() == dir.Progression() {
 			if bidiStart != -1 {
 				swapVisualOrder(finalLine[bidiStart:idx])
 				bidiStart = -1
